@@ -127,6 +127,8 @@ impl TaskHandle {
     }
 
     pub(crate) async fn events_snapshot(&self) -> Vec<Event> {
+        #[cfg(rip_verif)]
+        rip_kernel::verif::lock_point("task.buffer", &|| self.events.try_lock().is_ok());
         self.events.lock().await.clone()
     }
 
@@ -335,6 +337,39 @@ impl TaskEngine {
     }
 }
 
+#[cfg(rip_verif)]
+impl TaskEngine {
+    /// Verification export: the future `spawn_task` would spawn, returned unspawned.
+    pub(crate) fn verif_task_future(
+        &self,
+        handle: TaskHandle,
+        payload: TaskSpawnPayload,
+    ) -> impl std::future::Future<Output = ()> + Send + 'static {
+        run_task(
+            handle,
+            payload,
+            self.config.clone(),
+            self.workspace_lock.clone(),
+            self.event_log.clone(),
+            self.snapshot_dir.clone(),
+        )
+    }
+
+    /// Verification export: emit the given frames through the real task emitter.
+    pub(crate) fn verif_emit_future(
+        &self,
+        handle: &TaskHandle,
+        kinds: Vec<EventKind>,
+    ) -> impl std::future::Future<Output = ()> + Send + 'static {
+        let emitter = TaskEmitter::new(handle, self.event_log.clone());
+        async move {
+            for kind in kinds {
+                emitter.emit(kind).await;
+            }
+        }
+    }
+}
+
 #[derive(Debug, Deserialize)]
 struct ShellArgs {
     command: String,
@@ -510,6 +545,8 @@ impl TaskEmitter {
     }
 
     async fn emit(&self, kind: EventKind) {
+        #[cfg(rip_verif)]
+        rip_kernel::verif::lock_point("task.seq", &|| self.seq.try_lock().is_ok());
         let mut seq = self.seq.lock().await;
         let event = Event {
             id: Uuid::new_v4().to_string(),
@@ -520,7 +557,11 @@ impl TaskEmitter {
         };
         *seq += 1;
 
+        #[cfg(rip_verif)]
+        rip_kernel::verif::point("task.publish");
         let _ = self.sender.send(event.clone());
+        #[cfg(rip_verif)]
+        rip_kernel::verif::lock_point("task.buffer", &|| self.events.try_lock().is_ok());
         let mut guard = self.events.lock().await;
         guard.push(event.clone());
         let _ = self.event_log.append(&event);
